@@ -26,8 +26,10 @@ import (
 	"verifharness/lib/zk"
 
 	"github.com/consensys/gnark-crypto/ecc"
+	"github.com/consensys/gnark/backend"
 	"github.com/consensys/gnark/backend/groth16"
 	"github.com/consensys/gnark/constraint"
+	"github.com/consensys/gnark/constraint/solver"
 	"github.com/consensys/gnark/frontend"
 	"github.com/consensys/gnark/logger"
 	"pgregory.net/rapid"
@@ -475,7 +477,11 @@ func (s *session) honest(interp prog.Result) string {
 	var proof groth16.Proof
 	if err := guard("groth16.Prove", func() error {
 		var e error
-		proof, e = groth16.Prove(s.ccs, pk, w)
+		// sequential solver: with the parallel solver, independent commitments of one solver level run the
+		// prover's commitment hint concurrently on ONE shared hash object (backend/groth16/<curve>/prove.go,
+		// opt.HashToFieldFn) and ~1 % of the proofs of such circuits are invalid with ANY keys, also those of
+		// groth16.Setup. That is a prover defect outside C18; the key oracle must not depend on it.
+		proof, e = groth16.Prove(s.ccs, pk, w, backend.WithSolverOptions(solver.WithNbTasks(1)))
 		return e
 	}); err != nil {
 		return fmt.Sprintf("the keys sealed from the honest ceremony do not prove the circuit (domain %d, %d constraints): %v", s.N, s.ccs.GetNbConstraints(), err)
@@ -1168,6 +1174,7 @@ func TestCeremony(t *testing.T) {
 	rec.SetRule(rule)
 	rec.Assume("a group element replaced by a different element of the subgroup satisfies a pairing relation it did not satisfy before only with negligible probability")
 	rec.Assume("an empty Challenge in a contribution is filled in by the verifier (documented in Verify); emptied challenges are executed but nothing is asserted about them")
+	rec.Assume("the sealed keys are exercised with solver.WithNbTasks(1): with the parallel solver groth16.Prove races on the shared commitment hasher for circuits with independent commitments (about 1 % invalid proofs with any keys, groth16.Setup included) - a prover defect outside this property")
 	rec.Assume("length prefixes and the commitment count of serialized contributions are not edited (decoder robustness is C08)")
 	curves := quickCurves()
 	if ev.Tier() == "thorough" {
